@@ -719,6 +719,10 @@ func c01Scenario(c *mon.Ctx, r *rand.Rand, lg *world.Log, key, evil *world.Key, 
 						return append([]byte(fmt.Sprintf("%d\n%s\n", rec, forgedText)), fhead...), nil
 					case p == "/latest":
 						return fhead, nil
+					case p == "/lookup/"+lg.Mods[other].Path+"@"+lg.Mods[other].Vers:
+						// the next request of the same client is answered from the same forged log, with the very
+						// same head bytes: having been refused once does not make them any better
+						return append([]byte(fmt.Sprintf("%d\n%s\n", other, alt[other])), fhead...), nil
 					}
 					if t, ok := refmerkle.ParseTilePath(strings.TrimPrefix(p, "/")); ok && refmerkle.TileExists(t, int64(n)) {
 						if t.L < 0 {
